@@ -13,7 +13,9 @@
    ISetupOk, ISetupFail, ERegOk, ERegRefused, ETimeout, ECfgOk, ECfgErr, EConnLost, IServeDone).
    enabled_env s lists the events that can release a pending Start in state s: the dial returns;
    RegisterPlugin is answered, refused, the connection is lost or the registration time-out expires
-   (always among them); Configure is handled or the connection is lost.
+   (always among them); Configure is handled — accepted, failed in the plugin's hook, or refused by the
+   stub — or the connection is lost.  In AwaitLost (Configure ended without telling Start) NOTHING is
+   enabled: a runtime end that keeps the connection open is not bound to do anything.
    ASSUMED about the environment: one of the enabled events eventually happens (a peer that keeps
    the connection open after registration but never sends Configure is outside the property's
    list of faults; the code has no time-out for it).  Boundedness in time is a run-time fact.
@@ -21,6 +23,8 @@
    Three switches stand for the three defects the property text names:
      failed_start_shares_session  (variant of the second) connClosed filters by a number advanced only when an
                              established session is closed: a failed Start's notification hits the next session
+     cfg_ok_unsent / cfg_hookerr_unsent / cfg_reject_unsent   Configure returns without handing its result
+                             to Start on that path (accepted / hook failed / mask refused): phase AwaitLost
      wait_cfg_unguarded      Start's wait for the configuration result is not released by a lost connection
      stale_close_unfiltered  connClosed closes whatever session is current
      dead_conn_reused        a failed Start leaves the closed connection in stub.conn
@@ -49,9 +53,9 @@ Print Assumptions C16_invariant.
    any phase, time-out, configuration error — brings the Start strictly closer to returning
    (rank <= 4: at most four events). *)
 Theorem C16_start_returns : forall sw s,
-  wait_cfg_unguarded sw = false -> reachable sw s -> start_pending s = true ->
+  wait_cfg_unguarded sw = false -> results_sent sw -> reachable sw s -> start_pending s = true ->
   enabled_env sw s <> [] /\ forall a, In a (enabled_env sw s) -> rank (step sw s a) < rank s.
-Proof. intros sw s G R. exact (start_progress sw s G (reachable_wf sw s R)). Qed.
+Proof. intros sw s G U R. exact (start_progress sw s G U (reachable_wf sw s R)). Qed.
 Print Assumptions C16_start_returns.
 
 (* ... and when it returns: Ok exactly when the plugin got configured (then the stub is started
@@ -76,12 +80,27 @@ Theorem C16_start_returns_refuted :
 Proof. exact start_returns_refuted. Qed.
 Print Assumptions C16_start_returns_refuted.
 
-(* what holds for every switch setting: that is the ONLY way to get stuck *)
+(* FALSE as well for the variant [reject_unsent] (Configure sends its result explicitly and the path that
+   refuses a mask with unhandled events returns without sending).  Witness: the plugin asks for an event it
+   has no handler for and the runtime end keeps the connection open after the failed Configure call: Start is
+   pending, the connection is alive, nothing is enabled, and after ANY sequence of actions that does not
+   lose the connection it is still pending and the lock is still held. *)
+Theorem C16_configure_result_unsent_refuted :
+  exists l, reachable reject_unsent (run reject_unsent init l) /\
+    let s := run reject_unsent init l in
+    start_pending s = true /\ enabled_env reject_unsent s = [] /\ conn_live (sconn s) = true /\
+    forall l', ~ In EConnLost l' ->
+      start_pending (run reject_unsent s l') = true /\ lock_free (run reject_unsent s l') = false.
+Proof. exact configure_result_unsent_refuted. Qed.
+Print Assumptions C16_configure_result_unsent_refuted.
+
+(* what holds for every switch setting: these are the ONLY two ways to get stuck *)
 Theorem C16_start_returns_partial : forall sw s,
   reachable sw s -> start_pending s = true ->
-  (enabled_env sw s = [] <-> ph s = AwaitConfigure /\ conn_live (sconn s) = false) /\
+  (enabled_env sw s = [] <-> (ph s = AwaitConfigure /\ conn_live (sconn s) = false) \/ ph s = AwaitLost) /\
   forall a, In a (enabled_env sw s) ->
-    rank (step sw s a) < rank s \/ (a = EConnLost /\ ph s = AwaitConfigure /\ wait_cfg_unguarded sw = true).
+    rank (step sw s a) < rank s \/ (a = EConnLost /\ ph s = AwaitConfigure /\ wait_cfg_unguarded sw = true) \/
+    ph (step sw s a) = AwaitLost.
 Proof. intros sw s R. exact (start_progress_partial sw s (reachable_wf sw s R)). Qed.
 Print Assumptions C16_start_returns_partial.
 
@@ -142,12 +161,12 @@ Print Assumptions C16_close_delivered.
 (* from EVERY reachable idle state — after a failed Start of any kind, a lost connection, a Stop —
    a Start against a healthy runtime ends configured, on a connection dialled for it *)
 Theorem C16_restart_works : forall sw s,
-  dead_conn_reused sw = false -> reachable sw s -> ph s = Idle ->
+  dead_conn_reused sw = false -> cfg_ok_unsent sw = false -> reachable sw s -> ph s = Idle ->
   let s' := run sw s healthy_start in
   ph s' = Configured /\ started s' = true /\ last_start s' = Some ResOk /\
   gen s' = S (gen s) /\ sconn s' = CLive (S (gen s)) /\ cli_open s' = true /\
   hd_error (established s') = Some (gen s') /\ pending s' = pending s /\ fired s' = fired s.
-Proof. intros sw s D R. exact (restart_works sw s D (reachable_wf sw s R)). Qed.
+Proof. intros sw s D U R. exact (restart_works sw s D U (reachable_wf sw s R)). Qed.
 Print Assumptions C16_restart_works.
 
 (* FALSE for the pinned code.  Witness: registration refused; every later Start against a healthy
@@ -165,7 +184,7 @@ Print Assumptions C16_restart_works_refuted.
 (* what holds for every switch setting: restart works whenever no connection was left behind
    (after a failed dial, a Stop, a lost established session) *)
 Theorem C16_restart_works_partial : forall sw s,
-  ph s = Idle -> sconn s = CNone ->
+  cfg_ok_unsent sw = false -> ph s = Idle -> sconn s = CNone ->
   let s' := run sw s healthy_start in
   ph s' = Configured /\ started s' = true /\ last_start s' = Some ResOk /\ sconn s' = CLive (S (gen s)).
 Proof. exact restart_works_partial. Qed.
@@ -225,19 +244,20 @@ Print Assumptions C16_stale_notification_partial.
 (* the switch settings the theorems are instantiated with *)
 Example C16_ex_fixed :
   wait_cfg_unguarded fixed = false /\ stale_close_unfiltered fixed = false /\ dead_conn_reused fixed = false /\
-  failed_start_shares_session fixed = false.
+  failed_start_shares_session fixed = false /\ results_sent fixed.
 Proof. repeat split. Qed.
 
 (* a reachable state with a Start under way (hypotheses of C16_start_returns) *)
 Example C16_ex_pending :
   let s := run fixed init [AStart; EDialOk; ISetupOk; ERegOk] in
-  reachable fixed s /\ start_pending s = true /\ enabled_env fixed s = [ECfgOk; ECfgErr; EConnLost] /\
+  reachable fixed s /\ start_pending s = true /\ enabled_env fixed s = [ECfgOk; ECfgErr; ECfgRejected; EConnLost] /\
   ph (step fixed s EConnLost) = Idle /\ last_start (step fixed s EConnLost) = Some ResErr.
 Proof. split; [eexists; reflexivity|]. vm_compute. repeat split. Qed.
 
 (* reachable idle states after each kind of failure, and the restart from them *)
 Example C16_ex_restart :
-  forall b, In b [BUnreachable; BRefuse; BDropInReg; BSilentReg; BDropAfterReg; BCfgError; BDropAfterCfg] ->
+  forall b, In b [BUnreachable; BRefuse; BDropInReg; BSilentReg; BDropAfterReg; BCfgError; BCfgReject;
+                  BCfgErrorDrop; BCfgRejectDrop; BDropAfterCfg] ->
   let s := settle fixed (run_start fixed init b) in
   ph s = Idle /\ ph (run fixed s healthy_start) = Configured.
 Proof. intros b H. cbn in H. repeat destruct H as [<-|H]; try contradiction; vm_compute; split; reflexivity. Qed.
@@ -266,6 +286,16 @@ Proof.
   - intros f H. cbn in H. repeat destruct H as [<-|H]; try contradiction; vm_compute; intros o [<-|[<-|[]]]; reflexivity.
   - vm_compute. left. reflexivity.
 Qed.
+
+(* a refused subscription with the runtime end keeping the connection: an error under fixed, blocked in the variant *)
+Example C16_ex_reject_kept_open :
+  run_ops fixed init [OStart BCfgReject; OStart BHealthy] =
+    [[{| o_class := KErr; o_started := Some false; o_closes := 1; o_waiting := 0 |};
+      {| o_class := KOk; o_started := Some true; o_closes := 1; o_waiting := 0 |}]] /\
+  run_ops reject_unsent init [OStart BCfgReject; OStart BHealthy] =
+    [[{| o_class := KBlocked; o_started := None; o_closes := 0; o_waiting := 0 |}]] /\
+  run_ops reject_unsent init [OStart BCfgRejectDrop] = run_ops fixed init [OStart BCfgRejectDrop].
+Proof. vm_compute. repeat split. Qed.
 
 Example C16_ex_ops_fixed :
   run_ops fixed init [OStart BDropAfterReg] = [[{| o_class := KErr; o_started := Some false; o_closes := 1; o_waiting := 0 |}]] /\
